@@ -12,7 +12,8 @@ def run_part(ctx):
         for announce in ("victim", "self"):
             for seed in (True, False):
                 for meta in (True, False):
-                    scripts.append({"id": len(scripts), "cfg": {"announce": announce, "seed": seed, "meta": meta}, "steps": []})
+                    # coalesce: the peer's last handshake frame and its contact frame arrive in one chunk
+                    scripts.append({"id": len(scripts), "cfg": {"announce": announce, "seed": seed, "meta": meta, "coalesce": (len(scripts) % 2 == 1)}, "steps": []})
     events, _ = vf.run_driver(ctx, ".", "^TestVerifContactPending$", ov, scripts, "contactpending", timeout=1500)
     acc, rejects = vf.validate_blocks(ctx, ("MonContactPending", "Mon_ContactPending.cfg"), events, "contactpending")
     ctx.evaluations += len(scripts)
